@@ -329,7 +329,129 @@ func TestVerifC04(t *testing.T) {
 	}
 	if os.Getenv("VERIF_REPLAY") == "" {
 		c04Long(rep, rn, filepath.Join(dir, "c04-long"), base)
+		for k := 0; k < n/3+1; k++ {
+			c04Restore(rep, rn, filepath.Join(dir, fmt.Sprintf("c04-restore-%d", k)), base*104729+int64(k))
+		}
 	}
+}
+
+// c04Restore: the node replaces its output stream while a GetMessages request is open (what
+// FSM.Restore does when a follower receives a snapshot): the old stream is closed, a new one
+// is filled again from the snapshot (entries re-applied one by one) and then grows. The open
+// connection, and a client resuming afterwards, must see every message once, in order.
+func c04Restore(rep *verifrep.R, rn *raft.Raft, dir string, seed int64) {
+	os.MkdirAll(dir, 0755)
+	defer os.RemoveAll(dir)
+	rng := rand.New(rand.NewSource(seed))
+	p := c04Plan{Seed: seed, Replicas: 1}
+	nOld, nNew := 8+rng.Intn(25), 1+rng.Intn(6)
+	id := uint64(10)
+	for k := 0; k < nOld+nNew; k++ {
+		b := c04Batch{Id: id}
+		nr := 1 + rng.Intn(4)
+		for r := 1; r <= nr; r++ {
+			b.Replies = append(b.Replies, c04Reply{Reply: uint64(r), Mine: rng.Intn(3) != 0 || r == nr, Data: fmt.Sprintf("R%d.%d", id, r)})
+		}
+		p.Batches = append(p.Batches, b)
+		id += 1 + uint64(rng.Intn(3))
+	}
+	p.Batches = append(p.Batches, c04Batch{Id: id + 3, Replies: []c04Reply{{Reply: 1, Mine: true, Data: "SENTINEL"}}})
+	var expected []c04Got
+	for _, b := range p.Batches {
+		for _, r := range b.Replies {
+			if r.Mine {
+				expected = append(expected, c04Got{b.Id, r.Reply, r.Data})
+			}
+		}
+	}
+	o1, err := outputstream.NewOutputStream(dir)
+	if err != nil {
+		panic(err)
+	}
+	i := ircserver.NewIRCServer("robustirc.net", time.Now())
+	i.CreateSession(robust.Id{Id: c04Session}, c04Auth, time.Now())
+	h := NewHTTP(i, rn, nil, o1, nil, "robustirc.net", "pw", dir, "c04", true, 3)
+	mux := http.NewServeMux()
+	mux.HandleFunc("/robustirc/v1/", h.DispatchPublic)
+	r1 := &c04Replica{out: o1, srv: httptest.NewServer(mux)}
+	r1.addUpTo(&p, nOld)
+	var o2 *outputstream.OutputStream
+	restored := make(chan struct{})
+	// how much of the snapshot the new stream holds again when the client is served from it
+	refill := []int{nOld, nOld, nOld - 1, nOld / 2, 0}[rng.Intn(5)]
+	during := func() {
+		defer close(restored)
+		time.Sleep(time.Duration(150+rng.Intn(200)) * time.Millisecond)
+		o1.Close()
+		var err error
+		o2, err = outputstream.NewOutputStream(dir)
+		if err != nil {
+			panic(err)
+		}
+		r2 := &c04Replica{out: o2}
+		r2.addUpTo(&p, refill)
+		h.ReplaceState(i, nil, o2)
+		for k := refill + 1; k <= len(p.Batches); k++ {
+			time.Sleep(time.Duration(rng.Intn(4)) * time.Millisecond)
+			r2.addUpTo(&p, k)
+		}
+	}
+	defer func() {
+		<-restored
+		r1.srv.CloseClientConnections()
+		r1.srv.Close()
+		time.Sleep(350 * time.Millisecond)
+		if o2 != nil {
+			o2.InterruptGetNext()
+			time.Sleep(20 * time.Millisecond)
+			o2.Close()
+		}
+	}()
+	judge := func(who string, got []c04Got) {
+		for k, g := range got {
+			if k >= len(expected) || g != expected[k] {
+				key := "gap"
+				if k < len(expected) && (g.Id < expected[k].Id || (g.Id == expected[k].Id && g.Reply < expected[k].Reply)) {
+					key = "duplicate"
+				}
+				want := "nothing more"
+				if k < len(expected) {
+					want = fmt.Sprintf("%d.%d", expected[k].Id, expected[k].Reply)
+				}
+				rep.Violation("C04", key, fmt.Sprintf("%s, output stream replaced while the request was open (%d batches before, new stream refilled to %d): message #%d is %d.%d, expected %s", who, nOld, refill, k, g.Id, g.Reply, want),
+					map[string]interface{}{"seed": seed, "restore": true})
+				return
+			}
+		}
+		if len(got) != len(expected) {
+			rep.Violation("C04", "never-delivered", fmt.Sprintf("%s, output stream replaced while the request was open: received %d of %d messages (stopped after %v)", who, len(got), len(expected), lastOf(got)),
+				map[string]interface{}{"seed": seed, "restore": true})
+		}
+	}
+	got, _ := c04Read(r1.srv.URL, "0.0", 0, 5*time.Second, during)
+	<-restored
+	if len(got) < len(expected) && len(got) > 0 {
+		// the connection may have been ended by the node; the client resumes like any client would
+		for tries := 0; tries < 3 && len(got) < len(expected); tries++ {
+			more, _ := c04Read(r1.srv.URL, lastOf(got), 0, 3*time.Second, nil)
+			got = append(got, more...)
+		}
+	}
+	judge("open connection", got)
+	// a client that was in the middle of a batch when the stream was replaced
+	cut := rng.Intn(len(expected)-1) + 1
+	resumed, _ := c04Read(r1.srv.URL, fmt.Sprintf("%d.%d", expected[cut-1].Id, expected[cut-1].Reply), 0, 3*time.Second, nil)
+	judge(fmt.Sprintf("client resuming after %d.%d", expected[cut-1].Id, expected[cut-1].Reply), append(append([]c04Got{}, expected[:cut]...), resumed...))
+	rep.Cases(len(got) + len(resumed))
+	rep.Case(fmt.Sprintf("restore|refill=%d", []string{"all", "partial"}[b2i(refill < nOld)]))
+	rep.Obs("restore-under-open-request.messages-read", len(got)+len(resumed))
+}
+
+func b2i(b bool) int {
+	if b {
+		return 1
+	}
+	return 0
 }
 
 // c04Long: a backlog that is larger than the output stream's read cache (1000
